@@ -33,6 +33,7 @@ arr_spread = z3.Function('arr_spread', V, V, V)
 obj_set = z3.Function('obj_set', V, V, V, V)
 obj_spread = z3.Function('obj_spread', V, V, V)
 any_truthy = z3.Function('any_value_truthy', V, z3.BoolSort())
+any_value = z3.Function('any_value_of', V, V)
 call_fns = {}
 bin_fns = {}
 un_fns = {}
@@ -243,6 +244,8 @@ class Interp:
             if v.null_proto and not v.props:
                 return EMPTY
             return self.term(ObjLit([('props', [(k, v.props[k]) for k in v.order])]))
+        if isinstance(v, tuple) and v and v[0] == 'anyvalue':
+            return any_value(self.term(v[1]))
         if isinstance(v, CondVal):
             return z3.If(v.c, self.term(v.a), self.term(v.b))
         if isinstance(v, (Closure, Native)):
@@ -297,20 +300,22 @@ class Interp:
                 raise JsUnsupported('symbolic key on generated object')
             return obj.props.get(str(key), UNDEFINED)
         if isinstance(obj, JArr):
-            if key == 'length':
+            if isinstance(key, str) and key == 'length':
                 return len(obj.items)
             if isinstance(key, int):
                 if 0 <= key < len(obj.items):
                     x = obj.items[key]
                     return UNDEFINED if x is HOLE_PY else x
                 return UNDEFINED
-            if key in ('concat', 'slice'):
+            if isinstance(key, str) and key in ('concat', 'slice'):
                 return Native('Array.' + key, lambda it, this, args, _k=key, _o=obj: it.array_method(_o, _k, args))
+            if is_v(key):
+                return get(self.term(obj), key)
             raise JsUnsupported('array member %r' % (key,))
         if isinstance(obj, ArrLit):
-            if key in ('concat', 'slice'):
+            if isinstance(key, str) and key in ('concat', 'slice'):
                 return Native('Array.' + key, lambda it, this, args, _k=key, _o=obj: it.array_method(_o, _k, args))
-        if isinstance(obj, CondVal) and key in ('concat', 'slice'):
+        if isinstance(obj, CondVal) and isinstance(key, str) and key in ('concat', 'slice'):
             return Native('Array.' + key, lambda it, this, args, _k=key, _o=obj: it.array_method(_o, _k, args))
         if isinstance(obj, (Closure, Native)):
             if key == 'call':
@@ -737,6 +742,8 @@ class Interp:
                 return op != '=='
             t = nullish_t(self.term(x))
             return V.Bool(t if op == '==' else z3.Not(t))
+        if op == '+' and isinstance(a, str) and isinstance(b, str):
+            return a + b            # concatenation of two string constants
         if isinstance(a, (int, float)) and isinstance(b, (int, float)) and not isinstance(a, bool) and not isinstance(b, bool):
             if op == '+':
                 return a + b
